@@ -116,12 +116,22 @@ def check_comp(case) -> Outcome:
         radix = targets[0]['radix']
         out.label(f'input:{targets[0]["type"]}', f'level:{case["level"]}')
     model = cc.build_model(case['model']) or default_model(n, radix)
+    # recorded root cause: with a native gate on >= 3 qudits the mapping
+    # stage accepts any CONNECTED triple as a site for it, so that gate - and
+    # the 2-qudit gates its retargeting puts around it - end up on a pair
+    # that is not coupled.  The signature names that condition so that the
+    # known finding covers nothing else.
+    wide_native = any(g.num_qudits >= 3 for g in model.gate_set)
     for o in outs:
         bad = cc.executable_violations(o, model)
         for clause, det in bad[:2]:
+            tag = ''
+            if kind == 'circuit' and wide_native and \
+                    clause.startswith('uncoupled_qudits'):
+                tag = '|model_with_3q_native_gate'
             out.fail(f'not_executable|{clause}|input:{kind}'
                      + (f':{case["targets"][0]["type"]}' if kind != 'circuit'
-                        else ''), det)
+                        else '') + tag, det)
         agreement(out, o, model, 'compile_output')
     ms = case['model']
     out.nontrivial = ms is not None and (
